@@ -76,7 +76,7 @@ func caseLess(a, b *caseT) bool {
 }
 
 func primaryKind(k string) bool {
-	return k == "retained" || k == "drive-on" || k == "fetcher" || k == "single" || k == "valid" || k == "resigned" || k == "byzblock" || k == "framing" || k == "roundtrip" || k == "rehashed" || k == "second-claim" || k == "pol-sequence"
+	return k == "multipart" || k == "retained" || k == "drive-on" || k == "fetcher" || k == "single" || k == "valid" || k == "resigned" || k == "byzblock" || k == "framing" || k == "roundtrip" || k == "rehashed" || k == "second-claim" || k == "pol-sequence"
 }
 
 func finish(r *report.Run, us []*unit, results []*unitResult, deaths []deathRec, machinery []string, expired bool, tier string, target int, unitsDone int) {
